@@ -647,10 +647,18 @@ type Proxy struct {
 	ReadAllRetry   func(ctx context.Context, tok int, r io.Reader) (string, error) `rpc_method:"T.ReadAll" retry:"true"`
 }
 
+// ProxyPre, when merged in front of Proxy, exposes the wire method T.Call once
+// more - retry-tagged - before Proxy's untagged Call: every field keeps the
+// tags it was declared with, whatever else the client was merged from.
+type ProxyPre struct {
+	CallRetryFirst func(ctx context.Context, tok int) (string, error) `rpc_method:"T.Call" retry:"true"`
+}
+
 type Client struct {
 	Name      string
 	Kind      string // ws | http | custom
 	P         Proxy
+	Pre       ProxyPre
 	Closer    jsonrpc.ClientCloser
 	Transport *http.Transport
 
@@ -672,6 +680,7 @@ type ClientOpts struct {
 	Errors      bool
 	Reverse     bool
 	KeepAlive   bool // http: reuse connections
+	Merged      bool // merge ProxyPre in front of Proxy
 	Extra       []jsonrpc.Option
 }
 
@@ -701,15 +710,19 @@ func (e *Env) NewClient(name string, srv *Server, o ClientOpts) (*Client, error)
 	}
 	opts = append(opts, o.Extra...)
 	var err error
+	outs := []interface{}{&c.P}
+	if o.Merged {
+		outs = []interface{}{&c.Pre, &c.P}
+	}
 	switch o.Kind {
 	case "ws":
-		c.Closer, err = jsonrpc.NewMergeClient(context.Background(), "ws://"+srv.Addr+"/rpc", "T", []interface{}{&c.P}, nil, opts...)
+		c.Closer, err = jsonrpc.NewMergeClient(context.Background(), "ws://"+srv.Addr+"/rpc", "T", outs, nil, opts...)
 	case "http":
 		c.Transport = &http.Transport{DialContext: e.N.Dialer(false), DisableKeepAlives: !o.KeepAlive, MaxIdleConnsPerHost: 4}
 		opts = append(opts, jsonrpc.WithHTTPClient(&http.Client{Transport: c.Transport}))
-		c.Closer, err = jsonrpc.NewMergeClient(context.Background(), "http://"+srv.Addr+"/rpc", "T", []interface{}{&c.P}, nil, opts...)
+		c.Closer, err = jsonrpc.NewMergeClient(context.Background(), "http://"+srv.Addr+"/rpc", "T", outs, nil, opts...)
 	case "custom":
-		c.Closer, err = jsonrpc.NewCustomClient("T", []interface{}{&c.P}, func(ctx context.Context, body []byte) (io.ReadCloser, error) {
+		c.Closer, err = jsonrpc.NewCustomClient("T", outs, func(ctx context.Context, body []byte) (io.ReadCloser, error) {
 			pr, pw := io.Pipe()
 			id := simrt.Spawn("custom")
 			go simrt.RunG(id, func() {
